@@ -279,7 +279,7 @@ def audit_file_directly(module, namespace, theorems):
 
 
 # corollaries that combine a regenerated function with theorems of the hand-written model; audited with the `_eq_model` theorem of the function
-GEN_LOGIC_COROLLARIES = {'parse_mpint': ['regenerated_reader_inverts_writer'], 'create_mpint': ['regenerated_roundtrip']}
+GEN_LOGIC_COROLLARIES = {'parse_mpint': ['regenerated_reader_inverts_writer'], 'create_mpint': ['regenerated_roundtrip', 'regenerated_roundtrip_ssh1']}
 
 
 def gen_logic_audit(names):
